@@ -304,8 +304,12 @@ ReadBackVerdict(p, text) ==
 (* finding about them must not be confused with a finding about every type.  *)
 OutsideFhirRestRegex == {"Parameters"}
 TypeClass(t) == IF t \in OutsideFhirRestRegex THEN t ELSE "T"
+(* version and base-URL labels are coarsened (a broken tree would otherwise   *)
+(* print a thousand signatures per failed check); the replay file has it all *)
+VerClass(l)  == IF l = "none" THEN "none" ELSE IF l \in {"vlen65", "vbad"} THEN "vbad" ELSE "v"
+BaseClass(l) == IF l = "none" THEN "rel" ELSE IF l = "trailing" THEN "slashed" ELSE "abs"
 CaseClass(cs, d) ==
-  CASE cs.kind = "rest"  -> "rest:" \o TypeClass(cs.type) \o ":" \o cs.ridc \o "," \o cs.verc \o "," \o cs.basec
+  CASE cs.kind = "rest"  -> "rest:" \o TypeClass(cs.type) \o ":" \o cs.ridc \o "," \o VerClass(cs.verc) \o "," \o BaseClass(cs.basec)
     [] cs.kind = "frag"  -> "frag:" \o cs.ridc
     [] cs.kind = "urn"   -> "urn:" \o cs.ridc
     [] cs.kind = "canon" -> "canon:" \o (IF cs.type = "" THEN "" ELSE TypeClass(cs.type) \o ":") \o cs.basec \o "," \o cs.verc \o "," \o cs.ridc
